@@ -11,7 +11,15 @@
 
 use crate::rng::mix;
 use crate::seam::{self, Env};
-use lipe_find_parser::{compile, parse};
+use lipe_find_parser::compile;
+
+/// `parse` as the caller threads call it: from a stack depth that varies from call to call.
+macro_rules! parse {
+    ($t:expr) => {{
+        let mut f = || lipe_find_parser::parse($t);
+        at_depth(next_call_depth(), &mut f)
+    }};
+}
 use serde_json::{json, Value};
 use std::collections::BTreeMap;
 use std::panic::{catch_unwind, AssertUnwindSafe};
@@ -328,7 +336,8 @@ fn compile_tree(
     tree: &lipe_find_parser::ast::Expression,
     opts: &lipe_find_parser::RunOptions,
 ) -> Result<Compiled, String> {
-    let c = compile(tree, opts).map_err(|e| format!("compile error: {e}"))?;
+    let mut call = || compile(tree, opts);
+    let c = at_depth(next_call_depth(), &mut call).map_err(|e| format!("compile error: {e}"))?;
     let c = std::rc::Rc::new(c);
     let c2 = c.clone();
     Ok(Compiled {
@@ -391,7 +400,39 @@ fn end_call(env: &Env, entry: u64) -> Window {
     w
 }
 
+/// Runs `f` with `kib` KiB more of the thread's stack in use than the caller has: the depth of the
+/// call site is part of the environment of a library call (code that measures or probes the stack —
+/// recursion guards, `stacker`-like growth — sees it), and an embedding program does not always call
+/// from the same depth.
+#[inline(never)]
+fn at_depth<R>(kib: usize, f: &mut dyn FnMut() -> R) -> R {
+    if kib == 0 {
+        return f();
+    }
+    let mut pad = [0u8; 1024];
+    std::hint::black_box(&mut pad);
+    let r = at_depth(kib - 1, f);
+    std::hint::black_box(&pad);
+    r
+}
+
+/// Extra stack depth (KiB) of the next library call of a caller thread: a function of the thread's
+/// key and of how many calls it has made.
+const CALL_DEPTHS_KIB: [usize; 8] = [0, 0, 0, 16, 64, 256, 600, 900];
+thread_local! {
+    static CALLS_MADE: std::cell::Cell<u64> = const { std::cell::Cell::new(0) };
+    static THREAD_KEY: std::cell::Cell<u64> = const { std::cell::Cell::new(0) };
+}
+fn next_call_depth() -> usize {
+    let n = CALLS_MADE.with(|c| {
+        c.set(c.get() + 1);
+        c.get()
+    });
+    CALL_DEPTHS_KIB[(mix(&[THREAD_KEY.with(|k| k.get()), n]) % CALL_DEPTHS_KIB.len() as u64) as usize]
+}
+
 fn caller_thread(env: Env, hash_key: u64, jobs: Receiver<Job>, replies: Sender<Reply>) {
+    THREAD_KEY.with(|k| k.set(hash_key));
     let _guard = seam::enter(&env, hash_key);
     while let Ok(job) = jobs.recv() {
         let mut reply = Reply { obs: vec![], compiled: vec![] };
@@ -402,7 +443,7 @@ fn caller_thread(env: Env, hash_key: u64, jobs: Receiver<Job>, replies: Sender<R
             Job::Stop => break,
             Job::CompileQuiet { subj, slot, text } => {
                 let r = catch_unwind(AssertUnwindSafe(|| {
-                    let (opts, tree) = parse(&text).map_err(|e| format!("parse error: {e}"))?;
+                    let (opts, tree) = parse!(&text).map_err(|e| format!("parse error: {e}"))?;
                     compile_tree(&tree, &opts)
                 }));
                 match r {
@@ -415,7 +456,7 @@ fn caller_thread(env: Env, hash_key: u64, jobs: Receiver<Job>, replies: Sender<R
                 }
             }
             Job::Parse { subj, text } => {
-                let r = catch_unwind(AssertUnwindSafe(|| match parse(&text) {
+                let r = catch_unwind(AssertUnwindSafe(|| match parse!(&text) {
                     Ok((opts, tree)) => Ok(format!("{opts:?} {tree:?}")),
                     Err(e) => Err(format!("parse error: {e}")),
                 }));
@@ -425,7 +466,7 @@ fn caller_thread(env: Env, hash_key: u64, jobs: Receiver<Job>, replies: Sender<R
                 });
             }
             Job::Compile { subj, slot, text, script, twice } => {
-                let parsed = catch_unwind(AssertUnwindSafe(|| parse(&text)));
+                let parsed = catch_unwind(AssertUnwindSafe(|| parse!(&text)));
                 match parsed {
                     Err(p) => reply.obs.push(Obs::Panicked {
                         what: "parse",
@@ -534,7 +575,7 @@ fn caller_thread(env: Env, hash_key: u64, jobs: Receiver<Job>, replies: Sender<R
             Job::Compare { a, b, text_a, text_b } => {
                 let entry = begin_call(&env, &[]);
                 let r = catch_unwind(AssertUnwindSafe(|| {
-                    let (pa, pb) = (parse(&text_a), parse(&text_b));
+                    let (pa, pb) = (parse!(&text_a), parse!(&text_b));
                     let (Ok((oa, ta)), Ok((ob, tb))) = (pa, pb) else {
                         return Obs::Compared { a, b, parsed: false, trees_equal: false, options_equal: false, dumps_equal: false, cloned: false, handles_held: 0, outcome_a: None, outcome_b: None };
                     };
@@ -570,7 +611,7 @@ fn caller_thread(env: Env, hash_key: u64, jobs: Receiver<Job>, replies: Sender<R
                 let entry = begin_call(&env, &script);
                 for t in &texts {
                     let _ = catch_unwind(AssertUnwindSafe(|| {
-                        if let Ok((o, tree)) = parse(t) {
+                        if let Ok((o, tree)) = parse!(t) {
                             if let Ok(c) = compile(&tree, &o) {
                                 let _ = c.scheme("/dev/other");
                                 let _ = c.io_map();
